@@ -1,4 +1,4 @@
-\* GenBank and EMBL: files of 1-2 small entries (LF with taxon, CRLF without), every buffer size
+\* GenBank (2 small shapes: LF with taxon, CR LF without) and EMBL (1 shape): files of 1-2 entries, every buffer size
 CONSTANTS
   Fmts = {"genbank", "embl"}
   Sel <- SelQuick
